@@ -77,7 +77,8 @@ static const char *const OP_NAMES[] = {
     "failing format calls: exception text", "wide streams: wostringstream << / wistringstream >> / writef",
     "accessors of the shared strings and buffer (c_str/data/at/front/back/iterators/view/c_str(substitute)/null comparisons)",
     "strings built from malformed UTF-8/16/32 with substitute_invalid (per-thread inputs, short/in-object, medium, long)",
-    "outputs growing past 256/512/1024/4096 bytes (per-thread sizes): format, string_stream, +=, replace, hex/base64"};
+    "outputs growing past 256/512/1024/4096 bytes (per-thread sizes): format, string_stream, +=, replace, hex/base64",
+    "format / string_stream << with every text argument type (C strings, STL strings and views, ST buffers of every width; per-thread texts, short and long)"};
 
 extern "C" int c20_num_ops() { return (int)(sizeof OP_NAMES / sizeof *OP_NAMES); }
 extern "C" const char *c20_op_name(int op) { return OP_NAMES[op]; }
@@ -424,6 +425,28 @@ extern "C" void c20_run_op(int op, int salt, const C20Shared *sh, char *out, siz
         std::string f2 = "{}{<" + std::to_string(n) + "}";
         ST::writef(os, f2.c_str(), big, salt);
         d.num((long long)os.str().size());
+        break;
+    }
+    case 43: {
+        // every overload that turns a text argument into UTF-8 may use scratch storage of its own
+        static const char *const N8[3] = {"alpha", "BRAVO", "charlie-charlie"};
+        static const wchar_t *const NW[3] = {L"w-alpha \u00e9", L"W-BRAVO \u00e8", L"w-charlie \u00ea and more text"};
+        static const char16_t *const N16[3] = {u"s-alpha \u00e9", u"S-BRAVO \u00e8", u"s-charlie \u00ea and more text"};
+        static const char32_t *const N32[3] = {U"l-alpha \u20ac", U"L-BRAVO \u20ad", U"l-charlie \u20ae and more text"};
+        std::string pre(250 + salt, '.');  // the arguments are appended where the stream crosses its in-object buffer
+        std::string f = pre + "{}|{}|{}|{}|{>20}|{<12}|{}|{}";
+        d.h(ST::format(f.c_str(), N8[salt], NW[salt], N16[salt], N32[salt], N32[(salt + 1) % 3], N16[(salt + 2) % 3], (const char8_t *)N8[salt], ST::string(N8[salt])));
+        d.s(ST::format("{}|{}|{}|{}", std::string(N8[salt]), std::wstring(NW[salt]), std::u16string(N16[salt]), std::u32string(N32[salt])));
+        d.s(ST::format("{}|{}|{}|{}", std::string_view(N8[salt]), std::wstring_view(NW[salt]), std::u16string_view(N16[salt]), std::u32string_view(N32[salt])));
+        d.s(ST::format("{}|{}|{}|{}", ST::char_buffer(N8[salt], strlen(N8[salt])), ST::wchar_buffer(NW[salt], wcslen(NW[salt])),
+                       ST::utf16_buffer(N16[salt], std::char_traits<char16_t>::length(N16[salt])),
+                       ST::utf32_buffer(N32[salt], std::char_traits<char32_t>::length(N32[salt]))));
+        d.s(ST::format("{c}|{c}|{c}|{c}|{}|{}", N8[salt][0], NW[salt][2], N16[salt][2], N32[salt][2], salt == 1, (void *)nullptr == nullptr));
+        ST::string_stream ss;
+        ss.append_char('-', 250 + salt);
+        ss << N8[salt] << NW[salt] << N16[salt] << N32[salt] << std::u32string(N32[salt]) << std::wstring_view(NW[salt]) << N32[salt][2] << NW[salt][0];
+        d.h(ss.to_string());
+        d.s(ST::string(N32[salt]) + N16[salt] + NW[salt] + N8[salt]);
         break;
     }
     }
